@@ -8,6 +8,7 @@ import (
 	"encoding/binary"
 	"math/big"
 
+	"github.com/nspcc-dev/neo-go/pkg/crypto/hash"
 	"github.com/nspcc-dev/neo-go/pkg/encoding/bigint"
 	"github.com/nspcc-dev/neo-go/pkg/smartcontract/scparser"
 	"github.com/nspcc-dev/neo-go/pkg/vm/opcode"
@@ -326,13 +327,23 @@ func (a *asm) bytes() []byte {
 type idiom struct {
 	name   string
 	script []byte
+	subs   []subScript
+}
+
+func mkSub(a *asm, nargs int) subScript {
+	b := a.bytes()
+	return subScript{Script: b, NArgs: nargs, Hash: hash.Hash160(b)}
+}
+
+func (a *asm) load(k, mode, nargs int) *asm {
+	return a.op(opcode.SYSCALL, le32(int(int32(loaderID(k, mode, nargs))))...)
 }
 
 func pow2(k uint) *big.Int { return new(big.Int).Lsh(big.NewInt(1), k) }
 
 func buildIdioms() []idiom {
 	var l []idiom
-	add := func(name string, a *asm) { l = append(l, idiom{name, a.bytes()}) }
+	add := func(name string, a *asm) { l = append(l, idiom{name: name, script: a.bytes()}) }
 	max := new(big.Int).Sub(pow2(255), big.NewInt(1))
 	minv := new(big.Int).Neg(pow2(255))
 
@@ -453,6 +464,20 @@ func buildIdioms() []idiom {
 		opcode.OVER, opcode.APPEND, opcode.LDLOC1, opcode.LDSFLD0, opcode.OVER, opcode.APPEND, opcode.POPITEM, opcode.DROP, opcode.LDLOC0, opcode.CLEARITEMS, opcode.PUSHNULL, opcode.STSFLD0, opcode.DROP, opcode.PUSHNULL, opcode.STLOC0))
 	add("share-call-args", newAsm().op(opcode.INITSSLOT, 1).ops(opcode.NEWARRAY0, opcode.DUP, opcode.DUP, opcode.STSFLD0).jmp(opcode.CALL, "F").ops(opcode.SIZE, opcode.RET).
 		label("F").op(opcode.INITSLOT, 1, 2).ops(opcode.LDARG0, opcode.LDARG1, opcode.APPEND, opcode.LDARG0, opcode.STLOC0, opcode.LDSFLD0, opcode.RET))
+	// --- nested script contexts (loaded through the harness loader syscall)
+	addN := func(name string, a *asm, subs ...subScript) { l = append(l, idiom{name, a.bytes(), subs}) }
+	retOne := mkSub(newAsm().op(opcode.INITSSLOT, 1).ops(opcode.NEWARRAY0, opcode.DUP, opcode.STSFLD0, opcode.PUSH1, opcode.PUSH2, opcode.DEPTH, opcode.PACK), 0)
+	retArgs := mkSub(newAsm().op(opcode.INITSLOT, 1, 2).ops(opcode.LDARG0, opcode.LDARG1, opcode.APPEND, opcode.LDARG0, opcode.STLOC0, opcode.LDARG0), 2)
+	throws := mkSub(newAsm().ops(opcode.PUSH1, opcode.PUSH2, opcode.PUSH3, opcode.PUSH4, opcode.THROW), 0)
+	throwsClean := mkSub(newAsm().op(opcode.INITSSLOT, 1).op(opcode.INITSLOT, 1, 0).ops(opcode.NEWARRAY0, opcode.STLOC0, opcode.NEWMAP, opcode.STSFLD0, opcode.PUSH4, opcode.THROW), 0)
+	for mode := 0; mode < nLoadModes; mode++ {
+		addN("nested-return", newAsm().load(0, mode, 0).ops(opcode.DEPTH, opcode.PACK, opcode.DUP, opcode.SIZE), retOne)
+		addN("nested-args-shared", newAsm().ops(opcode.NEWARRAY0, opcode.DUP, opcode.NEWSTRUCT0).load(0, mode, 2).ops(opcode.DEPTH, opcode.PACK), retArgs)
+		addN("nested-throw-clean-stack", newAsm().try(false, "C", "").load(0, mode, 0).jmp(opcode.ENDTRY, "E").label("C").op(opcode.DROP).jmp(opcode.ENDTRY, "E").label("E").ops(opcode.DEPTH), throwsClean)
+		addN("nested-throw-items-on-stack", newAsm().try(false, "C", "").load(0, mode, 0).jmp(opcode.ENDTRY, "E").label("C").op(opcode.DROP).jmp(opcode.ENDTRY, "E").label("E").ops(opcode.DEPTH), throws)
+	}
+	addN("nested-throw-items-on-stack-loop", newAsm().label("L").try(false, "C", "").load(0, ldHash, 0).jmp(opcode.ENDTRY, "E").label("C").op(opcode.DROP).jmp(opcode.ENDTRY, "E").label("E").jmp(opcode.JMP, "L"), throws)
+	addN("nested-recursive-load", newAsm().load(0, ldFlags, 0), mkSub(newAsm().load(0, ldFlags, 0), 0))
 	return l
 }
 
